@@ -7,7 +7,7 @@
     [k].  Proofs: DbFilesFacts.v; instance obligation: Inst_Upgrade.v (the
     upgrader is one BEGIN..COMMIT group etc.). *)
 From Coq Require Import ZArith String List.
-From MW Require Import Sql DbFiles DbFilesFacts Inst_Upgrade.
+From MW Require Import Sql DbFiles DbFilesFacts Inst_Upgrade DbFilesMore.
 From MWGen Require Import GenParams GenSchemas.
 Import ListNotations.
 Open Scope Z_scope.
@@ -205,3 +205,42 @@ Example C20_copy_crash_nonvacuous :
   | [] => False
   end.
 Proof. vm_compute. repeat split; auto. eexists. repeat split; auto. Qed.
+
+(** * the corners of the upgrade and repeated kills (quoted by type from DbFilesMore.v) *)
+
+(** an old-version file on which the upgrade script does not run: the start fails, the main file is the old database at every kill point and after every retry, whatever the backup state *)
+Theorem C20_upgrade_fails_unchanged_ : ltac:(let t := type of DbFilesMore.C20_upgrade_fails_unchanged in exact t).
+Proof. exact DbFilesMore.C20_upgrade_fails_unchanged. Qed.
+Check C20_upgrade_fails_unchanged_.
+Print Assumptions C20_upgrade_fails_unchanged_.
+
+(** an old-version file with a non-standard schema on which the script runs: same rows, version = target, objects = old ++ created; backup = the old file *)
+Theorem C20_upgrade_any_schema_ : ltac:(let t := type of DbFilesMore.C20_upgrade_any_schema in exact t).
+Proof. exact DbFilesMore.C20_upgrade_any_schema. Qed.
+Check C20_upgrade_any_schema_.
+Print Assumptions C20_upgrade_any_schema_.
+
+(** any number of upgrades killed at any points, then an uninterrupted start: the result of an uninterrupted upgrade, backup = the old database *)
+Theorem C20_upgrade_retry_n_ : ltac:(let t := type of DbFilesMore.C20_upgrade_retry_n in exact t).
+Proof. exact DbFilesMore.C20_upgrade_retry_n. Qed.
+Check C20_upgrade_retry_n_.
+Print Assumptions C20_upgrade_retry_n_.
+
+(** ... and in between the directory is always one of the five states a single kill can leave *)
+Theorem C20_upgrade_crash_states_n_ : ltac:(let t := type of DbFilesMore.C20_upgrade_crash_states_n in exact t).
+Proof. exact DbFilesMore.C20_upgrade_crash_states_n. Qed.
+Check C20_upgrade_crash_states_n_.
+Print Assumptions C20_upgrade_crash_states_n_.
+
+(** non-vacuity: a database for each sub-case *)
+Theorem C20_upgrade_corner_nonvacuous : ltac:(let t := type of DbFilesMore.upgrade_corner_nonvacuous in exact t).
+Proof. exact DbFilesMore.upgrade_corner_nonvacuous. Qed.
+Check C20_upgrade_corner_nonvacuous.
+Print Assumptions C20_upgrade_corner_nonvacuous.
+
+(** non-vacuity of the repeated-kill theorem *)
+Theorem C20_upgrade_retry_n_nonvacuous : ltac:(let t := type of DbFilesMore.upgrade_retry_n_nonvacuous in exact t).
+Proof. exact DbFilesMore.upgrade_retry_n_nonvacuous. Qed.
+Check C20_upgrade_retry_n_nonvacuous.
+Print Assumptions C20_upgrade_retry_n_nonvacuous.
+
